@@ -81,9 +81,9 @@ Definition pinned_reserve (c : tcfg) (t : tinst) (now_ms n : Z) (rescue : bool) 
 
 Definition pinned_tstep (c : tcfg) (s : tstate) (o : top) : tstate * tobs :=
   match o with
-  | TAllow i now n rescue =>
+  | TAllow i now n rescue brk =>
     match nth_error (tinsts s) i with
-    | Some t => let '(st', t', r) := pinned_reserve c t now n rescue (tstore s) (tdown s) in
+    | Some t => let '(st', t', r) := pinned_reserve c t now n rescue (tstore s) (tdown s || negb brk)%bool in
                 (mkTS st' (tdown s) (set_nth i t' (tinsts s)), r)
     | None => (s, TU)
     end
@@ -105,34 +105,34 @@ Theorem token_script_refines_bucket_refuted :
     fst (eval pinned_script [ktokens c; kts c]
            [BInt (rate c); BInt (burst c); BInt (rnow st / 1000); BInt n] st) = RErr EExpire /\
     snd (bucket_take (rate c) (burst c) (mkB (burst c) 0) (rnow st / 1000) n) = true.
-Proof. exists f5_cfg, (mkR f5_now []), 1. vm_compute. repeat split; discriminate. Qed.
+Proof. exists f5_cfg, (mkR f5_now [] true), 1. vm_compute. repeat split; discriminate. Qed.
 
 (* two instances, one key, the same second, the store reachable all the time: each instance's
    first call errors, switches it to its private bucket, and 4 tokens are granted where the
    shared bucket allows burst + rate*0 = 2 (the rescue answers are the ones x/time/rate gave
    on the real code: true, true per instance) *)
 Definition f5_history : list top :=
-  [TAllow 0 f5_now 1 true; TAllow 0 f5_now 1 true; TAllow 1 f5_now 1 true; TAllow 1 f5_now 1 true].
+  [TAllow 0 f5_now 1 true true; TAllow 0 f5_now 1 true true; TAllow 1 f5_now 1 true true; TAllow 1 f5_now 1 true true].
 
 Fixpoint granted_any (ops : list top) (rs : list tobs) : Z :=
   match ops, rs with
-  | TAllow _ _ n _ :: ops', TR true _ _ :: rs' => n + granted_any ops' rs'
+  | TAllow _ _ n _ _ :: ops', TR true _ _ :: rs' => n + granted_any ops' rs'
   | _ :: ops', _ :: rs' => granted_any ops' rs'
   | _, _ => 0
   end.
 
 Theorem token_joint_bound_refuted :
   exists c ops, twf f5_now ops = true /\ telapsed ops = 0 /\
-    (* nobody took the store down *)
-    forallb (fun o => match o with TDown => false | _ => true end) ops = true /\
+    (* nobody took the store down and the circuit breaker was closed *)
+    forallb (fun o => match o with TDown | TAllow _ _ _ _ false => false | _ => true end) ops = true /\
     (* yet no answer came from the shared bucket, and more than burst tokens were granted *)
-    pinned_trun c (tinit f5_now 2) ops =
+    pinned_trun c (tinit true f5_now 2) ops =
       [TR true false false; TR true false false; TR true false false; TR true false false] /\
-    burst c + rate c * 0 < granted_any ops (pinned_trun c (tinit f5_now 2) ops).
+    burst c + rate c * 0 < granted_any ops (pinned_trun c (tinit true f5_now 2) ops).
 Proof. exists f5_cfg, f5_history. vm_compute. repeat split; reflexivity. Qed.
 
 (* with the repaired script (what the tree contains now) the same history is bounded *)
 Example f5_history_fixed :
-  trun f5_cfg (tinit f5_now 2) f5_history =
+  trun f5_cfg (tinit true f5_now 2) f5_history =
     [TR true true true; TR true true true; TR false true true; TR false true true].
 Proof. vm_compute. reflexivity. Qed.
